@@ -279,7 +279,7 @@ theorem cutEval_reduct {S : Store} {α : Nat → Bool} {lvl : Nat → Nat} (hst 
                     by_cases hv : cutν S α c'.natAbs = true
                     · simp only [hv, ↓reduceIte, Bool.not_true]; rw [cutEval_none]
                     · simp only [hv, Bool.false_eq_true, ↓reduceIte]; rw [cutEval_true]
-                      simpa using hv
+                      simp
                   | disj cs' nm' =>
                     have hcomp : IsCompound S c'.natAbs := Or.inr ⟨cs', nm', hn⟩
                     have hl := stratKey_lt (hcs _ hc) hneg hcomp
@@ -296,7 +296,7 @@ theorem cutEval_reduct {S : Store} {α : Nat → Bool} {lvl : Nat → Nat} (hst 
                     by_cases hv : cutν S α c'.natAbs = true
                     · simp only [hv, ↓reduceIte, Bool.not_true]; rw [cutEval_none]
                     · simp only [hv, Bool.false_eq_true, ↓reduceIte]; rw [cutEval_true]
-                      simpa using hv
+                      simp
             · simp only [reductKey, hneg, ↓reduceIte]
               exact ih _ _ hf' hanc
       cases hn : S.nodes[k.natAbs - 1]? with
